@@ -73,6 +73,16 @@ Theorem C12_chans_terminates_when_done : forall incaps outcap s,
     CMP.lib_enabled s.
 Proof. exact CMP.chans_returns_when_done. Qed.
 
+(* Variant: every step of the call itself (a receive/select arm, a send on out, the exit test, the return)
+   strictly decreases [CMV.measure] = (nout + 3) * (values buffered in the inputs or still queued at their
+   producers) + inputs not yet observed closed + what is left of the current delivery + distance to the return:
+   the call cannot spin or run forever on its own; together with the progress statements it returns once the
+   producers have closed everything and the consumer keeps receiving. *)
+Theorem C12_chans_terminates_variant : forall incaps outcap s l s',
+    reachable CM.qstep (CM.init_merge incaps outcap) s -> CMV.lib_label l -> CM.step s l = Some s' ->
+    CMV.measure s' < CMV.measure s.
+Proof. exact CMV.chans_variant. Qed.
+
 (* ------------------------------------------------------------------------------------------------ *)
 (* chans.Replicate *)
 Theorem C12_replicate : forall srccap dstcaps s,
@@ -95,6 +105,11 @@ Theorem C12_replicate_progress : forall srccap dstcaps s,
     CM.pc s <> CM.LInit -> CM.pc s <> CM.LDone ->
     CMP.lib_enabled s \/ CMP.waits_for_input s \/ CMP.waits_for_output s.
 Proof. exact CMP.replicate_progress. Qed.
+
+Theorem C12_replicate_variant : forall srccap dstcaps s l s',
+    reachable CM.qstep (CM.init_replicate srccap dstcaps) s -> CMV.lib_label l -> CM.step s l = Some s' ->
+    CMV.measure s' < CMV.measure s.
+Proof. exact CMV.replicate_variant. Qed.
 
 (* ------------------------------------------------------------------------------------------------ *)
 (* stream.Merge *)
@@ -171,6 +186,15 @@ Theorem C12_workers_exit_after_close : forall scripts prog nctx s,
                       p = SM.WExited /\ SM.s_closes x = 1).
 Proof. exact SMP.stream_workers_exit_after_close. Qed.
 
+(* Variant: every step of a worker (internal, or an up-call into its input) strictly decreases
+   [SMP.measure] = sum of the workers' distances to their exit + 20 * (Next calls the inputs may still answer
+   with an item): no worker can run forever without the environment releasing more input, so with the
+   progress statement above every worker finishes after Close. *)
+Theorem C12_workers_exit_variant : forall s i l s',
+    In l (SM.worker_taus i) \/ (exists r, l = SM.LSrcExit i r) \/ l = SM.LSrcEnter i \/ l = SM.LSrcClose i ->
+    SM.step s l = Some s' -> SMP.measure s' < SMP.measure s.
+Proof. exact SMP.worker_steps_decrease. Qed.
+
 (* ------------------------------------------------------------------------------------------------ *)
 (* non-vacuity: the models run non-trivial histories (each ends in a quiescent state) *)
 
@@ -235,3 +259,6 @@ Print Assumptions C12_first_error.
 Print Assumptions C12_first_error_sticky.
 Print Assumptions C12_later_errors_dropped.
 Print Assumptions C12_workers_exit_after_close.
+Print Assumptions C12_chans_terminates_variant.
+Print Assumptions C12_replicate_variant.
+Print Assumptions C12_workers_exit_variant.
